@@ -418,6 +418,7 @@ def concrete_read(modn, clsn, pname, layer, bg, value):
     txt = str(int(value)) if is_int else repr(float(value))
     entry = P.ParameterEntry(Name=name, sValue=txt, raw_entry=f'{name}, {txt}')
     before = prm.value
+    declared = (float(prm.Min), float(prm.Max)) if not is_int else [int(x) for x in prm.AllowableRange]      # as declared, before any reading code runs
     exc = None
     out = io.StringIO()
     try:
@@ -437,11 +438,11 @@ def concrete_read(modn, clsn, pname, layer, bg, value):
     except (ValueError, RuntimeError) as e:
         exc = e
     if is_int:
-        member = int(value) in [int(x) for x in prm.AllowableRange]
+        member = int(value) in declared
         sentinel = int(value) == prm.DefaultValue or int(value) == (before.value if hasattr(before, 'value') else before)
     else:
         v = float(value)
-        member = float(prm.Min) <= v <= float(prm.Max)
+        member = declared[0] <= v <= declared[1]
         sentinel = v == prm.DefaultValue or v == before
     after = prm.value
     detail = {'value': txt, 'member_of_documented_range': member, 'raised': repr(exc)[:200] if exc else None,
